@@ -72,6 +72,22 @@ def check_case(case, fenced=True):
         except Exception:
             sql = "?"
         return (bad[0], "%r -> %s ; %s" % (text, sql[:400], bad[1]))
+    # metamorphic companion: the row's own integer values written as literals must not change the row's fate
+    lit = {"ran": 0, "skipped": 0}
+    for i, t2 in semcheck.literalised(t, case["rows"], case.get("style_seed", 0)):
+        text2 = printer.render(t2, c01.style_of(case))
+        try:
+            ids_l = set(apply_odata_query(M.Item.objects, text2).values_list("id", flat=True))
+        except Exception:
+            lit["skipped"] += 1        # the companion may leave the supported fragment: nothing is decided
+            continue
+        lit["ran"] += 1
+        if ((i + 1) in ids_l) != ((i + 1) in set(ids)):
+            return ("literalised-row-differs", "row %d %r: %r %s it, but with its integer values as literals %r %s it" % (
+                i + 1, case["rows"][i], text, "selects" if (i + 1) in set(ids) else "does not select", text2,
+                "selects" if (i + 1) in ids_l else "does not select"))
+    case["_stats"]["literalised_ran"] = lit["ran"]
+    case["_stats"]["literalised_skipped"] = lit["skipped"]
     return None
 
 
@@ -95,25 +111,104 @@ def check_with_twins(case, fenced=True):
 
 
 def replay(case):
+    if "sweep" in case:
+        return check_sweep(case)
     return check_with_twins(dict(case), fenced=False)
 
 
-signature = c01.signature
+def signature(case):
+    if "sweep" in case:
+        return "sweep"
+    return c01.signature(case)
 
 
 def shrink(case, bucket):
+    if "sweep" in case:
+        return case
     case = {k: v for k, v in case.items() if not k.startswith("_")}
     return semcheck.shrink_case(case, bucket, fragment(), lambda c: check_with_twins(dict(c)), budget=200)
+
+
+SWEEP_A = [-7, -3, -1, 0, 1, 3, 7, 8]
+SWEEP_B = [-3, -2, -1, 0, 1, 2, 3]
+SWEEP_SHAPES = ["i1 eq %(x)s %(op)s %(b)s", "i1 eq %(b)s %(op)s %(x)s", "i1 in (%(x)s %(op)s %(b)s, 100)",
+                "not (i1 ne %(x)s %(op)s %(b)s)", "%(x)s %(op)s %(b)s eq i1", "i1 add 1 gt %(x)s %(op)s %(b)s"]
+
+
+def sweep_rows():
+    rows = []
+    for a in SWEEP_A:
+        for v in range(-25, 26):
+            rows.append({"i1": v, "i2": a, "r1": 0.5, "s1": "a", "s2": "b", "b1": True,
+                         "t1": gen_typed.DT_GRID[0], "d1": gen_typed.DATE_GRID[0]})
+    return rows
+
+
+def run_sweep(acc, part, parts):
+    """Exhaustive metamorphic sweep: `<shape over i2 OP b>` restricted to the rows where i2 = a must select what
+    `<shape over a OP b>` (both operands literal) selects among those rows - for every operator, small a and b of
+    either sign, operand order and six surrounding shapes. Whatever reading a backend gives to div and mod on
+    negative or inexact operands, it must not depend on whether an operand is written as a column or a literal."""
+    from odata_query.django import apply_odata_query
+    rows = sweep_rows()
+    M = db_orm.django_load({"items": rows})
+    by_a = {a: {i + 1 for i, r in enumerate(rows) if r["i2"] == a} for a in SWEEP_A}
+    k = 0
+    for op in ("add", "sub", "mul", "div", "mod"):
+        for shape in SWEEP_SHAPES:
+            for b in SWEEP_B:
+                k += 1
+                if k % parts != part:
+                    continue
+                col_text = shape % {"x": "i2", "op": op, "b": b}
+                try:
+                    col_ids = set(apply_odata_query(M.Item.objects, col_text).values_list("id", flat=True))
+                except Exception as e:
+                    acc.cls("sweep_column_form_refused")
+                    continue
+                for a in SWEEP_A:
+                    lit_text = shape % {"x": a, "op": op, "b": b}
+                    case = {"sweep": [col_text, lit_text, a]}
+                    try:
+                        lit_ids = set(apply_odata_query(M.Item.objects, lit_text).values_list("id", flat=True))
+                    except Exception as e:
+                        acc.cls("sweep_literal_form_refused")
+                        continue
+                    nt = op in ("div", "mod") and (a < 0 or b < 0)
+                    acc.case(key=digest(case["sweep"]), nontrivial=nt, sample={"column_form": col_text, "literal_form": lit_text, "i2": a})
+                    acc.cls("sweep_pairs")
+                    if (col_ids & by_a[a]) != (lit_ids & by_a[a]):
+                        acc.fail("literal-vs-column:" + op, case,
+                                 "%r selects ids %r among the rows with i2 = %d, %r selects %r" % (
+                                     col_text, sorted(col_ids & by_a[a])[:6], a, lit_text, sorted(lit_ids & by_a[a])[:6]))
+
+
+def check_sweep(case):
+    from odata_query.django import apply_odata_query
+    col_text, lit_text, a = case["sweep"]
+    rows = sweep_rows()
+    M = db_orm.django_load({"items": rows})
+    mine = {i + 1 for i, r in enumerate(rows) if r["i2"] == a}
+    col_ids = set(apply_odata_query(M.Item.objects, col_text).values_list("id", flat=True)) & mine
+    lit_ids = set(apply_odata_query(M.Item.objects, lit_text).values_list("id", flat=True)) & mine
+    if col_ids != lit_ids:
+        op = lit_text.replace("(", " ").split()
+        op = [w for w in op if w in ("add", "sub", "mul", "div", "mod")]
+        return ("literal-vs-column:" + (op[-1] if op else "?"), "%r -> %r ; %r -> %r" % (col_text, sorted(col_ids)[:6], lit_text, sorted(lit_ids)[:6]))
+    return None
 
 
 def plan(tier, seed, scale):
     K = 16
     total = int((12000 if tier == "quick" else 120000) * scale)
-    return [{"name": "rand-%d" % i, "kind": "rand", "n": max(total // K, 10), "shard": i,
+    return [{"name": "sweep-%d" % i, "kind": "sweep", "part": i, "parts": 4} for i in range(4)] + [{"name": "rand-%d" % i, "kind": "rand", "n": max(total // K, 10), "shard": i,
              "depth": 4 if tier == "quick" else 5} for i in range(K)]
 
 
 def run_task(task, seed, acc):
+    if task["kind"] == "sweep":
+        run_sweep(acc, task["part"], task["parts"])
+        return
     Fg = fragment()
 
     def one(case):
@@ -128,6 +223,8 @@ def run_task(task, seed, acc):
         acc.cls("rows_selected", stats.get("selected", 0))
         acc.cls("rows_excluded_by_known_finding", stats.get("excluded_by_known_finding", 0))
         acc.cls("filters_beyond_an_engine_limit", stats.get("engine_limit", 0))
+        acc.cls("literalised_companions_run", stats.get("literalised_ran", 0))
+        acc.cls("literalised_companions_outside_fragment", stats.get("literalised_skipped", 0))
         for c in c01.classes_of(t, case["rows"]):
             acc.cls(c)
         if r:
